@@ -321,10 +321,19 @@ def _shard_main(args):
         tally.shard = shard
         deadline = time.monotonic() + seconds
         if enum_on and hasattr(check, 'enumerations'):
+            # enumerations get their own budget (default: three times the sweep budget); one
+            # that is cut short is reported as incomplete (then 'exhaustive' is not claimed)
+            enum_deadline = time.monotonic() + float(
+                check.BUDGET[tier].get('enum_seconds', 3 * seconds))
             for name, gen, _exh in check.enumerations(tier):
                 for idx, case in enumerate(gen()):
                     if idx % nshards != shard:
                         continue
+                    if time.monotonic() > enum_deadline:
+                        tally.budget_exhausted = True
+                        tally.labels['enum-incomplete:' + name] = \
+                            tally.labels.get('enum-incomplete:' + name, 0) + 1
+                        break
                     outcome = guarded_run(check, case)
                     tally.add(case, outcome, 'enum:' + name)
         if n_examples > 0:
